@@ -651,3 +651,79 @@ def _none_edges(b, field, within):
         for t in bool_tests(b, c.dest["l"]):
             out += t.err_edges() if _last(c.name) == "is_some" else t.ok_edges()
     return out
+
+
+# ------------------------------------------------------------------------------------------- ROLE-4 (fold) the newest manifest record decides a recovered counter
+def role4_last_record_wins(P, R, L, rule="ROLE-4"):
+    """VersionSet::recover folds the optional counters of every manifest record (current / previous WAL, next file number, last
+    sequence) into four accumulators; the manifest is a log, so the value of the LAST record that carries a field is the one to
+    restore.  Each in-loop definition of an accumulator takes the record's field - either behind the Some edge of a test of that
+    field, or as `record.field.or(accumulator)` with the record on the receiver side.  (`accumulator.or(record.field)` keeps the
+    first record's value: the next-file-number counter regresses and a later flush truncates a live table.)"""
+    fn = "versioning::version_set::VersionSet::recover"
+    r = P.body(fn)
+    if r is None:
+        return R.missing_anchor(rule, fn)
+    R.analysed(r)
+    from ..rules import in_cycle
+    n = 0
+    for fld in ("wal_file_number", "prev_wal_file_number", "curr_file_number", "prev_sequence_number"):
+        from_rec = lambda os_: any(fld in o.path for o in os_)
+        defs_ok, seen, why = True, 0, "ok"
+        for l, dl in r.defs().items():
+            if l <= r.nargs or r.local_name(l) is None:
+                continue
+            loop_defs = [d for d in dl if not r.is_cleanup(d[1]) and in_cycle(r, d[1])]
+            if not loop_defs or len(dl) < 2:
+                continue
+            for d in loop_defs:
+                if d[0] == "stmt":
+                    rv = d[3]["rv"]
+                    ops = rv.get("ops", [])
+                    if d[3]["pl"]["p"] or not ops:
+                        continue
+                    folds = [o for op in ops for o in origins(r, op) if o.kind == "call" and o.site is not None and
+                             _last(o.name) in ("or", "or_else", "xor", "and", "and_then", "unwrap_or", "max", "min")]
+                    folds = [o for o in folds if any(from_rec(origins(r, a)) for a in o.site.args)]
+                    if folds:
+                        d = ("call", folds[0].site.bb, None, folds[0].site.t)
+                    elif not any(from_rec(origins(r, op)) for op in ops):
+                        continue
+                    else:
+                        seen += 1
+                        # a plain copy of the record's field: only behind the Some edge of a test of that field
+                        some_edges = []
+                        for c in r.calls():
+                            if not r.is_cleanup(c.bb) and _last(c.name) in ("is_some", "is_none") and c.args and from_rec(origins(r, c.args[0])) and not c.dest["p"]:
+                                for t in bool_tests(r, c.dest["l"]):
+                                    some_edges += t.ok_edges() if _last(c.name) == "is_some" else t.err_edges()
+                        for bb2 in range(r.n):
+                            for st2 in r.blocks[bb2]["stmts"]:
+                                if st2["k"] == "assign" and st2["rv"]["k"] == "discr" and from_rec(origins(r, {"k": "copy", "pl": st2["rv"]["pl"]})) and not st2["pl"]["p"]:
+                                    for sb in range(r.n):
+                                        t = r.term(sb)
+                                        if t["k"] == "switch" and t["discr"]["k"] in ("copy", "move") and t["discr"]["pl"]["l"] == st2["pl"]["l"]:
+                                            tg = switch_target(t, 1)
+                                            if tg is not None:
+                                                some_edges.append((sb, tg))
+                        if not some_edges or not r.must_pass(d[1], through_edges=some_edges):
+                            defs_ok, why = False, "`%s` takes the record's %s without a test that the record carries one (line %s)" % (r.local_name(l), fld, d[3].get("line"))
+                        continue
+                if d[0] == "call":
+                    t = d[3]
+                    nm = _last((t.get("resolved") or t.get("callee") or "").split("<")[0]) if t else ""
+                    from ..cfg import strip_generics
+                    nm = _last(strip_generics(t.get("resolved") or t.get("callee") or ""))
+                    args = t["args"]
+                    if not any(from_rec(origins(r, a)) for a in args):
+                        continue
+                    seen += 1
+                    if nm in ("or", "or_else") and args and from_rec(origins(r, args[0])):
+                        continue
+                    defs_ok, why = False, "`%s` is folded with Option::%s and the record's %s is not on the receiver side (line %s): the first record wins" % (
+                        r.local_name(l), nm, fld, t.get("line"))
+        n += seen
+        R.check(rule, "%s|last-record-wins.%s" % (fn, fld), defs_ok and seen > 0, where(r),
+                "the accumulator of %s takes the value of every record that carries one (the newest record decides)" % fld,
+                why if not defs_ok else ("ok (%d in-loop definitions)" % seen if seen else "no in-loop definition from the record's field"))
+    R.floor(rule, "in-loop accumulator definitions in VersionSet::recover", n, 4)
